@@ -427,6 +427,12 @@ for cls in (pi.HestonStock, pi.RoughBergomiStock):
     if p.volatility.shape != p.variance.shape or not torch.allclose(p.volatility, p.variance.clamp(min=0).sqrt()): bad.append((cls.__name__, "stale volatility"))
     p.to(torch.float32)
     if p.volatility.dtype != torch.float32: bad.append((cls.__name__, "dtype"))
+# variance buffer with exact zeros (the QE scheme's atom at zero) and tiny values: volatility must be exactly sqrt(variance)
+for dt_ in (torch.float64, torch.float32):
+    p = pi.HestonStock(dtype=dt_); p.simulate(n_paths=2, time_horizon=0.02)
+    p.variance.copy_(torch.tensor([[0.0, 1e-12, 0.04, 0.0, 1e-20, 0.09]] * 2, dtype=dt_)[:, : p.variance.size(1)])
+    want = p.variance.to(torch.float64).sqrt()
+    if not torch.allclose(p.volatility.to(torch.float64), want, rtol=1e-6, atol=0.0): bad.append(("HestonStock", str(dt_), "volatility %s, sqrt(variance) %s" % (p.volatility[0].tolist(), want[0].tolist())))
 result = {"got": [str(b) for b in bad], "ref": []}
 '''
 
@@ -434,4 +440,4 @@ result = {"got": [str(b) for b in bad], "ref": []}
 def _replay_derived():
     r = real_exec(DERIVED_REPLAY, {}, timeout=300)
     ok = r.get('ok') and r['result']['got'] == []
-    return {'real': r, 'confirmed': not ok}
+    return {'real': r, 'confirmed': not ok, 'note': 'replay: volatility == sqrt(variance) after re-simulation and casts (Heston, rough Bergomi), and on a variance buffer containing exact zeros and tiny values'}
